@@ -1,10 +1,11 @@
+\* a failed read of the stored assignment does not end the handling of the event (seeded change C18f): must violate
 CONSTANTS
-  ReadFaultGivesUp = TRUE
+  ReadFaultGivesUp = FALSE
   Node = {1, 2, 3}
   Db = {"d1"}
-  MaxShards = 3
+  MaxShards = 2
   MaxRf = 2
-  MaxEnv = 6
+  MaxEnv = 5
 SPECIFICATION MCSpec
 INVARIANTS ViewsAgree OnlineIffSomeReplicaAlive LeaderIsAliveReplica AssignmentsWellFormed
 PROPERTIES GrowKeepsExisting
